@@ -263,6 +263,15 @@ func (t *Transaction) With(name string, readOnly bool, createFn func() (Cachable
 		// The following shared cache lock is released when the transaction is done.
 		s.mu.Lock()
 		t.mu.Lock()
+		if old, ok := t.writtenCaches[name]; ok {
+			// We hold the write lock of an earlier cache under this name which
+			// has since been removed from the manager (scrapped, released or
+			// pruned). Nobody can reach it through the manager any more, so we
+			// retire it here, otherwise its lock is never released and anyone
+			// already waiting on it hangs forever.
+			old.scrapped = true
+			old.mu.Unlock()
+		}
 		t.writtenCaches[name] = s
 		t.mu.Unlock()
 		// defer s.mu.Unlock()
